@@ -138,7 +138,13 @@ class Check:
             checker_cmd="/verif/check %s" % self.pid,
             trusted_base=["go/ssa lowering", "sym executor + encodings (validated differentially)", "z3 5.1.0"],
         )
-        cov.update(self.extra)
+        from . import xsolve
+        xs = self.extra.get("cross_solver") or (dict(xsolve.stats) if xsolve.stats["queries"] else None)
+        if xs:
+            cov["cross_solver"] = xs
+            for d in xs.get("disagreements", []):
+                self.inconclusive.append("solver disagreement on %s: %s says %s, z3 5.1.0 says %s" % tuple(d))
+        cov.update({k: v for k, v in self.extra.items() if k != "cross_solver"})
         ev = dict(property_id=self.pid, tier=self.tier, seed=self.seed, level=self.level, coverage=cov,
                   assumptions=self.assumptions, wall_s=round(wall, 2), violations=len(self.violations))
         os.makedirs(os.path.join(VERIF, "evidence"), exist_ok=True)
